@@ -14,6 +14,14 @@ def display_growth(v, exe, tier, prop, dist):
         dg_ops.append("ADD dg.ctb %s" % common.hexbytes("display \\x%04x %s" % (c, G.dots_str(1 + (k % 255)))))
         if k % 97 == 0:
             dg_ops.append("ADD dg.ctb %s" % common.hexbytes("sign \\x%04x %s" % (0x5000 + k, G.dots_str(256 + k % 3000))))
+    # characters that share one bucket of the character-to-cell map (equal modulo 1123), added one at a time: every one
+    # of them has to stay reachable when the next is linked in (seeded change C15-G cut the chain behind its second entry)
+    coll = [0x6000 + 1123 * j for j in range(6)]
+    for j, c in enumerate(coll):
+        dg_ops.append("ADD dg.ctb %s" % common.hexbytes("display \\x%04x %s" % (c, G.dots_str(0x100 | (1 + j)))))
+    dg_ops.append("C2D dg.ctb 0 %s" % common.wide(coll))
+    dg_ops.append("D2C dg.ctb 0 %s" % common.wide([0x8000 | 0x100 | (1 + j) for j in range(len(coll))]))
+    coll_at = len(dg_ops) - 2
     probe = [0x3400, 0x3400 + nmap // 2, 0x3400 + nmap - 1, 0x61]
     dg_ops += ["C2D dg.ctb 0 %s" % common.wide(probe), "C2D other.ctb 0 %s" % common.wide([0x62]), "FWD dg.ctb 0 8 - 12 %s - -" % common.wide([0x61, 0x61]),
                "FREE", "C2D dg.ctb 0 %s" % common.wide(probe)]
@@ -37,6 +45,12 @@ def display_growth(v, exe, tier, prop, dist):
             v.violation(prop + ":display-growth:lost", "after %d run-time display mappings: %d rejected, lou_charToDots of the first/middle/last/base character = %s "
                         "(expected %s), other list unchanged: %s" % (nmap, len(rejected), got, want, other),
                         {"script": cdg.setup + ["… %d ADD display rules …" % nmap] + cdg.ops[-5:], "results": cdg.out[-5:]})
+        gc = common.unwide(cdg.out[coll_at].split(" ")[2]) if cdg.out[coll_at].startswith("V 1 ") else None
+        gd = common.unwide(cdg.out[coll_at + 1].split(" ")[2]) if cdg.out[coll_at + 1].startswith("V 1 ") else None
+        if gc != [0x8000 | 0x100 | (1 + j) for j in range(len(coll))] or gd != coll:
+            v.violation(prop + ":display-growth:colliding", "display mappings of %d characters that share a bucket, added one at a time: "
+                        "lou_charToDots gives %s, lou_dotsToChar gives %s" % (len(coll), common.wide(gc or [])[:60], common.wide(gd or [])[:60]),
+                        {"script": cdg.setup + [o for o in cdg.ops[:coll_at + 2] if "x6" in o or not o.startswith("ADD")][-10:], "results": cdg.out[coll_at:coll_at + 2]})
         if after_free is not None and after_free[:3] == want[:3]:
             v.violation(prop + ":display-growth:survives-free", "run-time display mappings are still there after lou_free()", {"script": cdg.ops[-2:], "results": cdg.out[-2:]})
 
